@@ -80,6 +80,11 @@ def _check_main(run, P):
              "dependency edges that make every admissible order equal the written order "
              "(shared with C02)", minimum=25)
 
+    run.rule("C01.calls", "a call inside an expression: the interpreter takes the callee "
+             "from the function table only (shared with C08.reads), evaluates every "
+             "positional argument in order and every keyword argument under its own name; "
+             "the Python printer prints them likewise", minimum=5)
+    _calls(run, P)
     _handlers(run, P)
     _driver(run, P)
     _step(run, P)
@@ -1085,7 +1090,179 @@ def power_rule(run, P, rule, cls_fq):
                "a**b**c evaluates a**(b**c)")
 
 
+def _calls(run, P):
+    from . import c08
+    _alias(run, "C08.reads", "C01.calls", lambda: c08._callee_lookup(run, P))
+    for fq, pos, kw in (
+            ("dagrt.expression.EvaluationMapper.map_generic_call", 2, 3),
+            ("dagrt.codegen.expressions.PythonExpressionMapper.map_generic_call", 2, 3),
+            (f"{INTERP}.exec_AssignFunctionCall", None, None)):
+        f = P.func(fq)
+        if pos is not None:
+            pos_src, kw_src = {f.params[pos]}, {f.params[kw]}
+        else:
+            pos_src, kw_src = {f"{f.params[1]}.parameters"}, {f"{f.params[1]}.kw_parameters"}
+        comps = [x for x in ast.walk(f.node)
+                 if isinstance(x, (ast.ListComp, ast.GeneratorExp, ast.DictComp, ast.SetComp, ast.For))]
+        n_pos = n_kw = 0
+        for c in comps:
+            gens = c.generators if not isinstance(c, ast.For) else None
+            it = gens[0].iter if gens else c.iter
+            tgt = gens[0].target if gens else c.target
+            ifs = gens[0].ifs if gens else []
+            base = it
+            wrapped = None
+            if isinstance(base, ast.Call) and isinstance(base.func, ast.Name) and base.args:
+                wrapped = base.func.id
+                base = base.args[0]
+            if isinstance(base, ast.Call) and isinstance(base.func, ast.Attribute) \
+                    and base.func.attr == "items" and dotted(base.func.value) in kw_src:
+                n_kw += 1
+                ok = wrapped in (None, "sorted", "list", "tuple") and not ifs \
+                    and isinstance(tgt, ast.Tuple) and len(tgt.elts) == 2 \
+                    and all(isinstance(e, ast.Name) for e in tgt.elts)
+                detail = "iterated whole"
+                if ok:
+                    k, v = tgt.elts[0].id, tgt.elts[1].id
+                    if isinstance(c, ast.DictComp):
+                        ok = isinstance(c.key, ast.Name) and c.key.id == k and any(
+                            isinstance(y, ast.Name) and y.id == v for y in ast.walk(c.value)) \
+                            and not any(isinstance(y, ast.Name) and y.id == k for y in ast.walk(c.value))
+                        detail = f"{{{norm(c.key)}: {norm(c.value, 40)}}}"
+                    elif isinstance(c, ast.For):
+                        stores = [s_ for s_ in ast.walk(c) if isinstance(s_, ast.Assign)
+                                  and isinstance(s_.targets[0], ast.Subscript)]
+                        ok = bool(stores) and all(
+                            dotted(s_.targets[0].slice) == k and any(
+                                isinstance(y, ast.Name) and y.id == v for y in ast.walk(s_.value))
+                            for s_ in stores)
+                        detail = "; ".join(norm(s_, 50) for s_ in stores)
+                    else:
+                        # "{name}={expr}".format(name=k, expr=...v...)
+                        ok = any(isinstance(y, ast.Name) and y.id == k for y in ast.walk(c.elt)) \
+                            and any(isinstance(y, ast.Name) and y.id == v for y in ast.walk(c.elt))
+                        detail = norm(c.elt, 60)
+                run.ob("C01.calls", f, c, ok,
+                       construct=f"{f.name}: keyword arguments, each under its own name, none "
+                                 f"left out ({detail})",
+                       why="a keyword argument evaluated under another name, or skipped, calls "
+                           "the user function with other arguments than the program says")
+            elif dotted(base) in pos_src:
+                n_pos += 1
+                ok = wrapped in (None, "enumerate", "list", "tuple") and not ifs
+                if ok and wrapped == "enumerate":
+                    ok = len(it.args) == 1 and not it.keywords and isinstance(tgt, ast.Tuple) \
+                        and len(tgt.elts) == 2
+                    if ok and isinstance(c, ast.For):
+                        i_, a_ = tgt.elts[0].id, tgt.elts[1].id
+                        stores = [s_ for s_ in ast.walk(c) if isinstance(s_, ast.Assign)
+                                  and isinstance(s_.targets[0], ast.Subscript)]
+                        ok = bool(stores) and all(
+                            dotted(s_.targets[0].slice) == i_ and any(
+                                isinstance(y, ast.Name) and y.id == a_ for y in ast.walk(s_.value))
+                            for s_ in stores)
+                run.ob("C01.calls", f, c, ok,
+                       construct=f"{f.name}: positional arguments taken in order, all of them, "
+                                 f"numbered from 0 ({norm(it, 40)})",
+                       why="a positional argument skipped, reversed or numbered from 1 binds "
+                           "the values to other parameters of the user function")
+        if not n_pos or not n_kw:
+            raise AnalysisError(f"{fq}: walks over the positional / keyword arguments not found")
+        # the call receives both
+        if pos is not None and f.name == "map_generic_call" and "Evaluation" in fq:
+            calls = [x for x in ast.walk(f.node) if isinstance(x, ast.Call)
+                     and any(isinstance(a, ast.Starred) for a in x.args)]
+            ok = len(calls) == 1 and len(calls[0].args) == 1 and len(calls[0].keywords) == 1 \
+                and calls[0].keywords[0].arg is None
+            run.ob("C01.calls", f, calls[0] if calls else f.node, ok,
+                   construct="the user function is called with (*positional, **keyword)",
+                   why="arguments that are evaluated but not passed on")
+
+
+FORCED_HELPERS = ("join_rec_with_parens_around_types", "rec_with_parens_around_types",
+                  "rec_with_force_parens_around")
+
+
+def _forced_types(P, f):
+    """Operand classes a printer handler puts in parentheses regardless of
+    precedence: {class short name}, or None if the handler forces none.
+    Recognised: pymbolic's *_with_parens_around_types helpers (the tuple of
+    types, also through a class attribute), an isinstance test on an operand
+    next to a '(%s)' wrapping, and delegation to super()."""
+    out = set()
+    found = False
+
+    def names_of(e):
+        if isinstance(e, ast.Tuple):
+            r = set()
+            for x in e.elts:
+                r |= names_of(x)
+            return r
+        d = dotted(e)
+        if d and d.startswith("self.") and f.cls is not None:
+            hit = P.lookup(f.cls, d[5:])
+            if hit:
+                return names_of(hit[1])
+            return set()
+        return {d.split(".")[-1]} if d else set()
+
+    for x in ast.walk(f.node):
+        if isinstance(x, ast.Call) and isinstance(x.func, ast.Attribute) \
+                and x.func.attr in FORCED_HELPERS:
+            found = True
+            for a in list(x.args) + [k.value for k in x.keywords]:
+                if isinstance(a, ast.Tuple) or (dotted(a) or "").startswith("self."):
+                    out |= names_of(a)
+        if isinstance(x, ast.If) and any(
+                isinstance(y, ast.Call) and dotted(y.func) == "isinstance" for y in ast.walk(x.test)) \
+                and any(isinstance(y, ast.Constant) and isinstance(y.value, str) and "(" in y.value
+                        and ")" in y.value for b in x.body for y in ast.walk(b)):
+            for y in ast.walk(x.test):
+                if isinstance(y, ast.Call) and dotted(y.func) == "isinstance" and len(y.args) == 2:
+                    found = True
+                    out |= names_of(y.args[1])
+        if isinstance(x, ast.Call) and isinstance(x.func, ast.Attribute) \
+                and isinstance(x.func.value, ast.Call) and dotted(x.func.value.func) == "super" \
+                and x.func.attr == f.name:
+            return "super"
+    return out if found else None
+
+
+def forced_parens_rule(run, P, rule, cls_fq):
+    """A handler of our printer that replaces a pymbolic handler keeps the
+    parentheses pymbolic forces around certain operand types."""
+    C = P.cls(cls_fq)
+    base = P.cls("pymbolic.mapper.stringifier.StringifyMapper")
+    n = 0
+    seen = set()
+    for c in P.mro(C):
+        if c.module.trusted:
+            continue
+        for name, f in sorted(c.methods.items()):
+            if not name.startswith("map_") or name in seen or P.method(C, name) is not f:
+                continue
+            seen.add(name)
+            bf = P.method(base, name)
+            if bf is None:
+                continue
+            want = _forced_types(P, bf)
+            if not want or want == "super":
+                continue
+            have = _forced_types(P, f)
+            ok = have == "super" or (have is not None and want <= have)
+            n += 1
+            run.ob(rule, f, f.node, ok,
+                   construct=f"{C.name}.{name} (from {c.name}) keeps the parentheses pymbolic's "
+                             f"{name} forces around {sorted(want)} operands "
+                             f"(forces: {sorted(have) if isinstance(have, set) else have})",
+                   why="'a*(b/c)' printed as 'a*b/c' is '(a*b)/c' in the target language: a "
+                       "different rounding, an overflow for large operands and another value "
+                       "for integer or remainder operands")
+    return n
+
+
 def _prec(run, P):
+    forced_parens_rule(run, P, "C01.prec", "dagrt.codegen.expressions.PythonExpressionMapper")
     consts = prec_constants(P)
     f = P.func("dagrt.codegen.expressions.PythonExpressionMapper.map_if")
     my = None
